@@ -510,7 +510,7 @@ def check_c11(tier, replay=None):
             a = go_case(cases, f, d, "ab", mode="free", w=3, why="search score on a random light position ...")
             go_case(cases, flip_fen(f), d, "ab", mode="free", flipof=a["id"], w=3, why="... and on its colour-flipped twin")
         # stalemate scores as a draw wherever it occurs in the tree, also exactly at the horizon
-        for f in stalemate_prone(rng, 2500 if T else 300):
+        for f in stalemate_prone(rng, 2500 if T else 600):
             go_case(cases, f, rng.choice([1, 2]), "plain", w=3, why="bare king at the edge, hostile queen close by: stalemates at the horizon")
         # mate distances for both sides and both colours: candidate forced mates (certificate verified by TLC): the mating side must
         # announce mate k <= N, the side being mated (position after the certified move) mate -k with k <= N - 1
